@@ -223,6 +223,10 @@ func parseDirectiveArgs(sdl string) ([]*Arg, error) {
 			}
 			continue
 		}
+		if strings.HasPrefix(rest[k:], `"""`) {
+			k = skipBlock(rest, k) - 1
+			continue
+		}
 		switch ch {
 		case '"':
 			inStr = true
@@ -357,12 +361,11 @@ func (p *miniParser) typeText() string {
 func (p *miniParser) str() (string, error) {
 	st := p.i
 	if strings.HasPrefix(p.s[p.i:], `"""`) {
-		end := strings.Index(p.s[p.i+3:], `"""`)
-		if end < 0 {
+		p.i = skipBlock(p.s, p.i)
+		if p.i > len(p.s) || p.i-3 < st+3 {
 			return "", fmt.Errorf("unterminated block string")
 		}
-		p.i += 3 + end + 3
-		return normalizeDesc(p.s[st+3 : p.i-3]), nil
+		return normalizeDesc(unescapeBlock(p.s[st+3 : p.i-3])), nil
 	}
 	p.i++
 	for !p.eof() {
@@ -442,3 +445,47 @@ func normalizeDesc(s string) string {
 
 // NormalizeDesc is exported for the checks.
 func NormalizeDesc(s string) string { return normalizeDesc(s) }
+
+// skipBlock returns the index just past the block string starting at s[i:] (which begins with three quotes);
+// a backslash escapes the next byte, as in ggql's reader.
+func skipBlock(s string, i int) int {
+	k := i + 3
+	for k < len(s) {
+		if s[k] == '\\' {
+			k += 2
+			continue
+		}
+		if strings.HasPrefix(s[k:], `"""`) {
+			return k + 3
+		}
+		k++
+	}
+	return len(s) + 1
+}
+
+// unescapeBlock undoes the escapes ggql's reader honours inside a block string.
+func unescapeBlock(s string) string {
+	var b strings.Builder
+	for i := 0; i < len(s); i++ {
+		if s[i] == '\\' && i+1 < len(s) {
+			i++
+			switch s[i] {
+			case 'n':
+				b.WriteByte('\n')
+			case 't':
+				b.WriteByte('\t')
+			case 'r':
+				b.WriteByte('\r')
+			case 'b':
+				b.WriteByte('\b')
+			case 'f':
+				b.WriteByte('\f')
+			default:
+				b.WriteByte(s[i])
+			}
+			continue
+		}
+		b.WriteByte(s[i])
+	}
+	return b.String()
+}
